@@ -14,6 +14,7 @@ class Cap:
         self.leaves = []          # dicts
         self.leafcb = {}
         self.attrs = []
+        self.repeat = None
         self.dfa = None           # dict: start, has_empty, states{qid: dict(match, eoi, trans[(lo,hi,t)], dead)}
         self.graph = None         # dict: root, states{sid: dict(early, accept, eoi, edges[(t, [(lo,hi)])])}
         self.gerrs = []           # ('disamb',[..]) | ('nostart',) | ('empty', n)
@@ -55,6 +56,9 @@ def parse_cap(path):
                 c.leaves.append(dict(idx=int(m[1]), kind=m[2], prio=int(m[3]), cb=m[4] == '1', lit=m[5] == '1',
                                      isutf8=m[6] == '1', minlen=int(m[7]), default_prio=int(m[8]),
                                      greedy_all=m[9] == '1', src=unhex(m[10]).decode('utf8', 'replace'), hir=m[11]))
+            elif k == 'repeat':
+                pp = rest.split()
+                c.repeat = (int(pp[0]), int(pp[2]))
             elif k == 'attr':
                 i, _, rest2 = rest.partition(' ')
                 c.attrs.append(dict(kv.split('=', 1) for kv in rest2.split() if '=' in kv))
